@@ -24,6 +24,7 @@ from pydiverse.common import (
 )
 from pydiverse.transform._internal.backend.table_impl import TableImpl
 from pydiverse.transform._internal.backend.targets import Polars, SqlAlchemy, Target
+from pydiverse.transform._internal.errors import NotSupportedError
 from pydiverse.transform._internal.ops import ops
 from pydiverse.transform._internal.ops.op import Ftype
 from pydiverse.transform._internal.pipe.table import Cache
@@ -35,8 +36,10 @@ from pydiverse.transform._internal.tree.col_expr import (
     Col,
     ColExpr,
     ColFn,
+    EvalAligned,
     LiteralCol,
     Order,
+    Series,
 )
 from pydiverse.transform._internal.util.warnings import warn
 
@@ -332,6 +335,11 @@ class SqlImpl(TableImpl):
 
         elif isinstance(expr, Cast):
             return cls.compile_cast(expr, sqa_expr)
+
+        elif isinstance(expr, EvalAligned | Series):
+            raise NotSupportedError(
+                f"`eval_aligned` / series in column expressions are not supported by the backend `{cls.backend_name}`"
+            )
 
         raise AssertionError
 
